@@ -193,7 +193,7 @@ func C11(r *eng.Run) {
 	r.Phase("New", t0, nil)
 
 	t0 = time.Now()
-	shapes := Shapes(true)
+	shapes := dedupe(append(Shapes(true), CmaxPrefixes()...))
 	pos := []int{ref.MinQ, ref.MinQ + 1, ref.MinQ + 17, ref.MinQ + 34, ref.MinQ + 35, -3000, -40, -1, 0, 1, 33, 3000, ref.MaxQ - 35, ref.MaxQ - 34, ref.MaxQ - 1, ref.MaxQ}
 	r.Bounds["shapes"] = len(shapes)
 	r.Bounds["ldexp_positions"] = len(pos)
